@@ -3,7 +3,7 @@
 writes /verif/seeded/README.md plus `checks_run` into each meta.json.  usage: seedreport.py [name ...]"""
 import json, os, subprocess, sys, re
 ROOT='/verif'
-REL={'C01':['C01','C03','C07'],'C02':['C02','C04','C08'],'C03':['C03'],'C04':['C04','C02'],'C05':['C05'],'C06':['C06'],'C07':['C07','C01'],'C08':['C08','C02'],'C09':['C09'],'C13':['C13'],'C14':['C14'],'C15':['C15'],'C16':['C16'],'C17':['C17'],'C18':['C18']}
+REL={'C01':['C01','C03','C07'],'C02':['C02','C04','C08'],'C03':['C03'],'C04':['C04','C02'],'C05':['C05'],'C06':['C06'],'C07':['C07','C01','C04','C02'],'C08':['C08','C02'],'C09':['C09'],'C13':['C13'],'C14':['C14'],'C15':['C15'],'C16':['C16'],'C17':['C17'],'C18':['C18']}
 allnames=sorted(d for d in os.listdir(f'{ROOT}/seeded') if os.path.isdir(f'{ROOT}/seeded/{d}'))
 names=allnames
 if len(sys.argv)>1: names=[n for n in names if n in sys.argv[1:]]
